@@ -2,10 +2,14 @@
 
 package gtree
 
-import "context"
+import (
+	"context"
+	"strings"
+)
 
 func init() {
 	verifRegister("VerifC12Rows", VerifC12Rows)
+	verifRegister("VerifC12Long", VerifC12Long)
 	verifRegister("VerifC12Empty", VerifC12Empty)
 }
 
@@ -127,4 +131,48 @@ func VerifC12Empty() {
 	verifAssert(err == nil, "C12.empty.nil")
 	verifAssert(len(w.out) == 0 && calls == 0 && vfsTouched() == 0, "C12.empty.nothing")
 	verifReach("C12.empty.end")
+}
+
+// VerifC12Long: over-long lines on the REAL bufio.Scanner (job flag realscan). One root row whose length is at the
+// scanner's limit (bufio.MaxScanTokenSize = 64 KiB: a row of 65535 bytes plus its newline still fits, one byte more
+// does not), optionally followed by a short second root; one name byte is arbitrary. Every entry point returns;
+// the row that fits is rendered completely, the row that does not fit is an error (never a nil with the row lost,
+// never a panic or a hang), in simple and in massive mode.
+func VerifC12Long() {
+	over := verifFlag("over")
+	b := verifBytes("byte", 1)
+	verifAssume(b[0] != '\n' && b[0] != '\r' && b[0] < 0x80)
+	n := 65535 - 2 - 1
+	if over {
+		n++
+	}
+	name := strings.Repeat("a", n) + b
+	doc := "- " + name + "\n"
+	if verifFlag("second") {
+		doc += "- z\n"
+	}
+	route := verifChoose("route", 0, 3)
+	verifContext("C12.long")
+	w := newVerifWriter()
+	var err error
+	switch route {
+	case 0:
+		err = OutputFromMarkdown(w, strings.NewReader(doc))
+	case 1:
+		err = OutputFromMarkdown(w, strings.NewReader(doc), WithNoUseIterOfSimpleOutput())
+	case 2:
+		err = WalkFromMarkdown(strings.NewReader(doc), func(wn *WalkerNode) error { w.out += wn.Row() + "\n"; return nil })
+	case 3:
+		err = OutputFromMarkdown(w, strings.NewReader(doc), WithMassive(context.Background()))
+	}
+	verifReach("C12.long.returned")
+	if over {
+		verifAssert(err != nil, "C12.long.reported")
+	} else {
+		verifAssert(err == nil, "C12.long.fits.nil")
+		verifAssert(strings.HasPrefix(w.out, name+"\n") || strings.HasSuffix(w.out, name+"\n"), "C12.long.fits.rendered")
+	}
+	if route == 3 {
+		verifAssert(verifQuiesce() == 0, "C12.long.noleak")
+	}
 }
